@@ -215,6 +215,7 @@ enum TokenFault {
     TF_CHAN_ARITH,     // a channel used arithmetically
     TF_BAD_TERNARY,    // a conditional whose branches are a channel and an integer (the error is rooted at the ?: node)
     TF_OVERFLOW_LITERAL,  // a number replaced by an integer literal beyond INT_MAX
+    TF_CHAN_OPERAND,   // a number replaced by a channel name (an ill-typed operand or argument)
     TF_COUNT
 };
 const char* token_fault_name(int);
